@@ -15,6 +15,12 @@ Definition md_pad (enc_len : N -> list N) (m : list N) : list N :=
   m ++ [128%N] ++ repeat 0%N (md_zeros (length m))
     ++ enc_len (N.modulo (8 * N.of_nat (length m)) 18446744073709551616).
 
+(* The same padding when the message is the continuation of a stream of which [bits] bits
+   (a multiple of 512) were absorbed before: only the length field changes. *)
+Definition md_pad_from (enc_len : N -> list N) (bits : N) (m : list N) : list N :=
+  m ++ [128%N] ++ repeat 0%N (md_zeros (length m))
+    ++ enc_len (N.modulo (bits + 8 * N.of_nat (length m)) 18446744073709551616).
+
 (* the first k consecutive 64-byte blocks of l *)
 Fixpoint chunks (k : nat) (l : list N) {struct k} : list (list N) :=
   match k with
@@ -26,3 +32,20 @@ Definition blocks (l : list N) : list (list N) := chunks (length l / 64) l.
 Definition md_hash (compress : list N -> list N -> list N) (iv : list N)
            (enc_len : N -> list N) (m : list N) : list N :=
   fold_left compress (blocks (md_pad enc_len m)) iv.
+
+(* Continuing from an arbitrary chaining value: [st] is the chaining value after the whole
+   blocks of a stream of [bits] bits so far, the last (bits / 8) mod 64 bytes of which are still
+   pending in [buf]; the stream goes on with [d] and ends. *)
+Definition md_resume (compress : list N -> list N -> list N) (enc_len : N -> list N)
+           (st : list N) (bits : N) (buf d : list N) : list N :=
+  let r := N.to_nat (N.modulo (N.div bits 8) 64) in
+  fold_left compress (blocks (md_pad_from enc_len (bits - 8 * N.of_nat r) (firstn r buf ++ d))) st.
+
+(* the running bit count (mod 2^64) after each part *)
+Fixpoint md_counts (bits : N) (parts : list (list N)) : list N :=
+  match parts with
+  | [] => []
+  | p :: r =>
+    let b := N.modulo (bits + 8 * N.of_nat (length p)) 18446744073709551616 in
+    b :: md_counts b r
+  end.
